@@ -45,4 +45,8 @@ def pace (now : Nat) : List Nat → List Nat → List Nat → List Nat
       if e < upd then upd :: pace now ends clk.tail slack               -- past after re-reading the clock
       else (upd + (e - upd) + slack.headD 0) :: pace now ends clk.tail slack.tail   -- sleep(e − upd), then write
 
+/-- the chunk duration `writeChunkedSegment` derives from the advertised offset:
+`(SegmentDurMS − int(ato·1000)) · timescale / 1000` (an offset of at least a segment is refused before) -/
+def chunkDurTicks (segDurMS atoMS T : Nat) : Nat := (segDurMS - atoMS) * T / 1000
+
 end Chunk
